@@ -149,14 +149,53 @@ def replay(i):
     return i, 'ok' if (rc_m == 1 and rc_p == 0) else 'UNEXPECTED mutant=%d repo=%d' % (rc_m, rc_p)
 
 
+def silent(i, tier='quick'):
+    """benign/<id>: a behaviour-preserving refactor - the repository's tests pass and the property's check stays silent"""
+    d = os.path.join(HERE, 'benign', i)
+    mp = os.path.join(d, 'meta.json')
+    m = json.load(open(mp)) if os.path.exists(mp) else {'id': i, 'property': i.split('-')[0]}
+    a = os.path.join(d, 'agent.json')
+    if os.path.exists(a) and 'summary' not in m:
+        try:
+            aj = json.load(open(a))
+            m.update(summary=aj.get('summary'), why_equivalent=aj.get('why_equivalent'), changes_outside_property=aj.get('changes_outside_property'))
+        except Exception:  # noqa
+            pass
+    with Worktree(i + 'b') as wt:
+        rc, out = sh('git apply %s/patch.diff' % d, cwd=wt)
+        if rc:
+            m['applies'] = False
+        else:
+            m['applies'] = True
+            rc_t, out_t = sh('%s -m pytest -q -p no:cacheprovider -x bitcoin/tests 2>&1 | tail -3' % PY, cwd=wt, env={'PYTHONDONTWRITEBYTECODE': '1'})
+            m['tests_pass'] = ' passed' in out_t and 'failed' not in out_t
+            rc_c, out_c = sh('./check %s --tier %s' % (m['property'], tier), cwd=HERE, env={'REPO_DIR': wt, 'VERIF_NO_EVIDENCE': '1'})
+            fam = [l.strip() for l in out_c.splitlines() if l.strip().startswith('family=') or l.startswith('HARNESS')]
+            m.setdefault('check', {})[tier] = {'exit': rc_c, 'first': fam[0][:300] if fam else ''}
+    with open(mp, 'w') as f:
+        json.dump(m, f, indent=1, sort_keys=True)
+        f.write('\n')
+    return i, m
+
+
 def main():
     ap = argparse.ArgumentParser()
-    ap.add_argument('cmd', choices=['confirm', 'detect', 'table', 'replay'])
+    ap.add_argument('cmd', choices=['confirm', 'detect', 'table', 'replay', 'silent'])
     ap.add_argument('ids', nargs='*')
     ap.add_argument('--tier', default='quick')
     ap.add_argument('--props', default='')
     ap.add_argument('-j', type=int, default=4)
     a = ap.parse_args()
+    if a.cmd == 'silent':
+        bd = os.path.join(HERE, 'benign')
+        allb = sorted(x for x in os.listdir(bd) if os.path.isdir(os.path.join(bd, x)))
+        ids = [x for x in allb if not a.ids or any(x == y or x.startswith(y + '-') for y in a.ids)]
+        for i in ids:
+            i, m = silent(i, a.tier)
+            c = m.get('check', {}).get(a.tier, {})
+            print('%-10s applies=%s tests=%s check_exit=%s %s' % (i, m.get('applies'), m.get('tests_pass'), c.get('exit'), c.get('first', '')[:200]))
+        sh('rm -rf /tmp/verif_out_*')
+        return
     ids = a.ids or ids_all()
     ids = [i for i in ids_all() if any(i == x or i.startswith(x + '-') for x in ids)] if a.ids else ids
     if a.cmd == 'confirm':
